@@ -41,8 +41,13 @@ def showFail : Fail → String
   | .crashed => "CRASHED"
   | .outside => "UNMODELLED path"
 
+/-- FNV-1a (64 bit) of the UTF-8 bytes, in hex: histories answer with the digest of a statement's dump, not the dump -/
+def fnv1a (s : String) : String :=
+  let h := s.toUTF8.foldl (fun (h : UInt64) b => (h ^^^ b.toUInt64) * 0x100000001b3) 0xcbf29ce484222325
+  String.ofList (Nat.toDigits 16 h.toNat)
+
 def showRes : Res String → String
-  | .ok s => "S" ++ s
+  | .ok s => "S#" ++ fnv1a s
   | .fail e => showFail e
 
 def sortStrs (xs : List String) : List String := (xs.toArray.qsort (· < ·)).toList
